@@ -305,6 +305,8 @@ the decoded value does not record (global table spec / "no metadata" flag of the
 structure Choices where
   global : Bool
   noMeta : Bool
+  /-- a new metadata id announced with flag 0x8 inside the PREPARED result metadata (read, then superseded) -/
+  newId : Option Bytes := none
 
 def opcodeOf : Response → Nat
   | .error _ => 0x00 | .ready => 0x02 | .authenticate _ => 0x03 | .supported _ => 0x06 | .result _ => 0x08
@@ -319,7 +321,7 @@ def encBody (f : Features) (ch : Choices) : Response → Bytes
   | .result .void => encInt 1
   | .result (.rows r) => encInt 2 ++ encRawRows r
   | .result (.setKeyspace ks) => encInt 3 ++ encString ks
-  | .result (.prepared p) => encInt 4 ++ encPrepared f ch.global ch.noMeta p
+  | .result (.prepared p) => encInt 4 ++ encPrepared f ch.global ch.noMeta ch.newId p
   | .result (.schemaChange sc) => encInt 5 ++ encSchemaChange sc
   | .event e => encEvent e
   | .authChallenge m => encBytesOpt m
@@ -336,7 +338,7 @@ def WfResponse (f : Features) (ch : Choices) : Response → Prop
   | .result .void => True
   | .result (.rows r) => WfRawRows f r
   | .result (.setKeyspace ks) => WfStr ks
-  | .result (.prepared p) => WfPrepared f ch.global ch.noMeta p
+  | .result (.prepared p) => WfPrepared f ch.global ch.noMeta ch.newId p
   | .result (.schemaChange sc) => WfSchemaChange sc
   | .event e => WfEvent e
   | .authChallenge m => ∀ b, m = some b → b.length < 2 ^ 31
@@ -382,7 +384,7 @@ theorem wellformed_roundtrip (f : Features) (ch : Choices) (r : Response) (h : W
       | prepared p =>
         simp only [encBody]
         exact rt_bind (rt_tracked (rt_tag _ (rt_readInt 4 (by omega)))) (by
-          simpa using rt_map ResultResp.prepared (rt_deserPrepared f ch.global ch.noMeta p h))
+          simpa using rt_map ResultResp.prepared (rt_deserPrepared f ch.global ch.noMeta ch.newId p h))
       | schemaChange sc =>
         simp only [encBody]
         exact rt_bind (rt_tracked (rt_tag _ (rt_readInt 5 (by omega)))) (by
